@@ -131,6 +131,9 @@ B_MEM = {"b_scan_128_at56": 6, "b_scan_128_at120": 6, "b_scan_128_at0": 6, "b_sc
 
 def B(name, what, cap=600, tier="quick", stub=False, **kw):
     kw.setdefault("assumptions", B_ASSUME)
+    # harnesses that write or check long byte runs are built with the buffer model's memcpy mode
+    if name.startswith(("b_hdr_", "b_open_", "b_zero_to_offset_long")):
+        kw.setdefault("features", ["bulk"])
     return H("b", name, what, tier=tier, cap=cap, mem_gb=24, stubbing=True, mem_est=B_MEM.get(name, 3), **kw)
 
 
@@ -190,14 +193,15 @@ A_ALL = [
 
 
 # ---------------------------------------------------------------------------- layer R
-R_TB = ["layer R runs the REAL key.rs, val.rs, piece.rs and semtype.rs (re-read from /repo at every build via #[path]) over the slot-structured model of vfile::VarFile (kani/r/src/filedb/inner/vfile_model.rs): header words + <= 4 slots at 8-aligned offsets, each slot = the sequence of typed fields last written into it (Size, Len, Bytes|Link, Off, Off, Zero-to) with the real vu64 field widths; byte-level codec correctness is decided separately (b_codec_*)",
+R_TB = ["in the harnesses restricted to small slots (r_*_small_*) the first-fit search of the large free list is replaced (kani::stub) by a failing assertion: 'unreachable' is checked, not assumed (without it CBMC unrolls that loop on the infeasible path: 367 s -> 111 s)",
+        "layer R runs the REAL key.rs, val.rs, piece.rs and semtype.rs (re-read from /repo at every build via #[path]) over the slot-structured model of vfile::VarFile (kani/r/src/filedb/inner/vfile_model.rs): header words + <= 4 slots at 8-aligned offsets, each slot = the sequence of typed fields last written into it (Size, Len, Bytes|Link, Off, Off, Zero-to) with the real vu64 field widths; byte-level codec correctness is decided separately (b_codec_*)",
         "PieceMgr::roundup, PieceMgr::free_piece_list_offset_of_header and the is_valid_key/is_valid_value table loops are replaced (kani::stub) by the loop-free functions of the frozen spec; harnesses k_class_roundup and k_class_lists show for ALL sizes that the real functions are those functions",
         "an access that does not fit the sequential write discipline of the model fails a check whose message starts with MODEL-LIMIT: and makes the run inconclusive, never a violation"]
 R_ASSUME = ["level R: pre-state = any image of 2..4 slots that satisfies I1 (slots tile [192, end), complete used or free records, free records on the list of their size class); slot sizes = any of the 15 small classes or 1024 + 128k (k <= 24); payload lengths <= 1300 bytes (key records <= 300), first 3 payload bytes tracked; offsets stored in key records: any 8-aligned value < 2^56"]
 R_I1 = "I1 afterwards: every slot a complete record inside its bounds and zero-padded to exactly its end, slots tile the file, every free record on exactly the list of its size class, no slot linked twice"
 
 
-R_MEM = {"r_val_rewrite_small_bfree": 10, "r_val_rewrite_small_bused": 10, "r_val_new_small_bfree": 8, "r_val_rewrite_bfree_c": 11, "r_val_rewrite_bused_c": 11, "r_val_new_bfree_c": 9, "r_key_rewrite_bfree": 16, "r_key_rewrite_bused": 16, "r_key_new_bfree": 13, "r_key_new_bused": 13, "r_val_rewrite_bfree": 11, "r_val_rewrite_bused": 11, "r_val_new_bfree": 9, "r_val_new_bused": 9, "r_pop_large3": 5}
+R_MEM = {"r_key_rewrite_small_bfree": 9, "r_key_new_small_bfree": 9, "r_val_rewrite_small_bfree": 4, "r_val_rewrite_small_bused": 4, "r_val_new_small_bfree": 4, "r_val_rewrite_bfree_c": 11, "r_val_rewrite_bused_c": 11, "r_val_new_bfree_c": 9, "r_key_rewrite_bfree": 16, "r_key_rewrite_bused": 16, "r_key_new_bfree": 13, "r_key_new_bused": 13, "r_val_rewrite_bfree": 11, "r_val_rewrite_bused": 11, "r_val_new_bfree": 9, "r_val_new_bused": 9, "r_pop_large3": 5}
 
 
 def R(name, what, fn, cap=1500, tier="quick", may_unsat=None):
@@ -217,8 +221,10 @@ R_VNEW_L = [R("r_val_new_bfree", W_WR % "ValueFile::add_value_piece (slot B free
             R("r_val_new_bused", W_WR % "ValueFile::add_value_piece (slot B used)", F_VW, cap=2400, tier="thorough", may_unsat=["in place"] + NOFREE)]
 F_KW = ["key.rs VarFileKeyCache::write_piece", "key.rs KeyPiece::dat_write_piece_one", "key.rs KeyPiece::encoded_piece_size", "key.rs KeyFile::add_key_piece", "key.rs read_piece", "key.rs read_piece_only_value_offset", "key.rs read_piece_only_key_length"] + F_POP + ["piece.rs VarFile::push_free_piece_list"]
 W_WRS = W_WR + " - slots of the 10 smallest classes (16..256 bytes) and lengths up to 250 (every small class boundary and the 1 -> 2 byte length encoding are crossed; the large class is covered by r_pop_large3 and the unrestricted variants of the thorough tier)"
-R_VREW_S = [R("r_val_rewrite_small_bfree", W_WRS % "ValueFile::write_piece of an existing record (slot B free)", F_VW, cap=1500), R("r_val_rewrite_small_bused", W_WRS % "ValueFile::write_piece of an existing record (slot B used)", F_VW, cap=1500, may_unsat=NOFREE + ["bigger large free slot reused"])]
+R_VREW_S = [R("r_val_rewrite_small_bfree", W_WRS % "ValueFile::write_piece of an existing record (slot B free)", F_VW, cap=1500, may_unsat=["bigger large free slot reused"]), R("r_val_rewrite_small_bused", W_WRS % "ValueFile::write_piece of an existing record (slot B used)", F_VW, cap=1500, may_unsat=NOFREE + ["bigger large free slot reused"])]
 R_VNEW_S = R("r_val_new_small_bfree", W_WRS % "ValueFile::add_value_piece (slot B free)", F_VW, cap=1500, tier="thorough", may_unsat=["in place", "old slot pushed onto a non-empty list", "bigger large free slot reused"])
+R_KEY_S = [R("r_key_rewrite_small_bfree", W_WRS % "KeyFile::write_piece of an existing key record with new value offset / chain link (slot B free, used slot C)", F_KW, cap=2400, tier="thorough", may_unsat=["bigger large free slot reused"]),
+           R("r_key_new_small_bfree", W_WRS % "KeyFile::add_key_piece (slot B free, used slot C)", F_KW, cap=2400, tier="thorough", may_unsat=["in place", "moved: offsets needed a bigger slot", "bigger large free slot reused"])]
 R_V3_L = [R("r_val_rewrite_bfree_c", W_WR % "ValueFile::write_piece of an existing record (slot B free, a third used slot C behind it)", F_VW, cap=3000, tier="thorough"),
           R("r_val_rewrite_bused_c", W_WR % "ValueFile::write_piece of an existing record (slots B and C used)", F_VW, cap=3000, tier="thorough", may_unsat=NOFREE),
           R("r_val_new_bfree_c", W_WR % "ValueFile::add_value_piece (slot B free, used slot C behind it)", F_VW, cap=3000, tier="thorough", may_unsat=["in place", "old slot pushed onto a non-empty list"])]
@@ -282,7 +288,7 @@ R_B = "B-harness rule: the real byte-level function on a symbolic file image."
 prop("C04", list(M_ITER.values()) + [B_SCAN_SMALL[1], B_SCAN_SMALL[3], B_SCAN_SMALL[4], B_SCAN_G[32], B_SCAN_AT["128_at56"], B_SCAN_AT["128_at120"], thorough(M_ITER_X[1]), thorough(M_ITER_X[2]), thorough(B_SCAN_SMALL[0]), thorough(B_SCAN_SMALL[2]), B_SCAN_AT["128_at0"], B_SCAN_AT["128_at64"], B_SCAN_AT["256_at184"], B_SCAN_G[64], B_SCAN_G[128], B_SCAN_G[256], B_SCAN_G[512], M_ITER_X[0], M_ITER_X[3], M_BIG["iter_mut"]],
      trusted_base=TB_COMMON + M_TB + B_TB, rule=R_M + " " + R_B, bounds="iterators: " + M_BOUNDS + "; bucket scan: tables of 2, 8, 16 (thorough also 1, 4) buckets with every start index, 32 (thorough: 64..512) buckets with every group-aligned start index, 128 buckets from the start indices 56 and 120 (thorough: 0, 64; 256 from 184), all table bytes symbolic",
      outside=["modification during a traversal (excluded by the property)", "tables of more than 512 buckets: the scan code depends on n only through the loop bounds idx + 8 < n and idx < n and the 64-bucket stride, all of which are crossed at 128..512"])
-prop("C02", B_OPEN_EX + [B_OPEN_NEW] + B_OPEN_DAT + B_HDRW + [MV["lookup"], K_HASH()[0], M_2STEP],
+prop("C02", B_OPEN_EX + [B_OPEN_NEW] + B_OPEN_DAT + B_HDRW + [MB["lookup"], K_HASH()[0], thorough(MV["lookup"]), M_2STEP],
      trusted_base=TB_COMMON + M_TB + B_TB, rule=R_B, bounds="stored tables of 2 and 8 buckets with symbolic contents; all parameter values",
      outside=["that rabuf's Drop writes every dirty chunk and that the OS returns what was written (dependency / kernel)", "reopen in another process", "the Rc handle graph of FileDb (see C11)",
               "argument: reopening = a fresh FileDbXxxInner over the same three files; every M-harness builds its handle freshly over an ARBITRARY valid store state and leaves such a state behind, so nothing a handle remembers matters except the cached bucket count, which is decided here"])
@@ -303,11 +309,11 @@ prop("C14", A_ALL, trusted_base=TB_COMMON + A_TB, rule="A-harness rule: the real
 
 R_R = "R-harness rule: one real record-level call from an arbitrary I1 image built from solver variables."
 del PROPS["C09_old"]
-prop("C06", [R_POPL, R_POPS, R_PUSH, R_VDEL, R_KDW] + R_VREW_S + [R_VNEW_S] + R_VREW_L + [R_WALK, K_ROUNDUP, K_LISTS] + R_VNEW_L + R_KREW_L + R_KNEW_L + R_V3_L + [MB["del_hit"]],
+prop("C06", [R_POPL, R_POPS, R_PUSH, R_VDEL, R_KDW] + R_VREW_S + [R_VNEW_S] + R_VREW_L + [R_WALK, K_ROUNDUP, K_LISTS] + R_VNEW_L + R_KREW_L + R_KNEW_L + R_V3_L + R_KEY_S + [MB["del_hit"]],
      trusted_base=TB_COMMON + R_TB + M_TB, rule=R_R, bounds=R_ASSUME[0],
      outside=["'file size bounded for a bounded live set' follows from the per-call rule (the file grows only if no suitable free slot exists) by a counting argument in DESIGN 4 C06 (prose)", "fragmentation behaviour of first fit on the large list beyond the rule itself",
               "free lists longer than 3 entries in one inductive step"])
-prop("C09", [K_VSLOT, K_KSLOT, K_ROUNDUP] + R_VREW_S + R_VREW_L + [B_ZERO, B_ZEROL, K_VSLOT_2G, K_KSLOT_16M] + [thorough(h) for h in R_VNEW_L] + R_KREW_L + R_KNEW_L + R_V3_L + [c for c in B_CODEC if c.name in ("b_codec_vallen", "b_codec_keylen", "b_codec_size")],
+prop("C09", [K_VSLOT, K_KSLOT, K_ROUNDUP] + R_VREW_S + R_VREW_L + [B_ZERO, B_ZEROL, K_VSLOT_2G, K_KSLOT_16M] + [thorough(h) for h in R_VNEW_L] + R_KREW_L + R_KNEW_L + R_V3_L + R_KEY_S + [c for c in B_CODEC if c.name in ("b_codec_vallen", "b_codec_keylen", "b_codec_size")],
      trusted_base=TB_COMMON + R_TB + B_TB, rule=R_R,
      bounds="sizing: value length <= 2^24 (quick) / 2^31-16 (thorough), key length <= 2^16 / 2^24, offsets < 2^56 / 2^64; record writes with neighbours: lengths <= 1300 (keys 300)",
      outside=["lengths >= 2^31 (u32 arithmetic of the crate wraps; beyond the property's 'at least 16 MiB')", "payload bytes beyond the first 3 of a record at level R (the payload is one write_all_small call; its bytes are covered by the buffer model at level B)"])
